@@ -56,5 +56,48 @@ PROPS['C05'] = Prop(
         'bounded by the number of path segments)'],
 )
 
+CONNECTIVES = ['_checks:TrueCheck.__call__', '_checks:FalseCheck.__call__', '_checks:NotCheck.__call__',
+               '_checks:AndCheck.__call__', '_checks:OrCheck.__call__', '_checks:_check']
+PRINTERS = ['_checks:TrueCheck.__str__', '_checks:FalseCheck.__str__', '_checks:Check.__str__',
+            '_checks:NotCheck.__str__', '_checks:AndCheck.__str__', '_checks:OrCheck.__str__']
+
+PROPS['C01'] = Prop(
+    functions=CONNECTIVES,
+    bounded=[('bounded.lang', 'c01')],
+    level='other',
+    technique='contract-based deductive verification of the evaluation side (own VC generator + z3); the parser side is a labelled bounded stand-in',
+    explanation='PROVED for all inputs: and/or/not/@/! evaluate as the Boolean connectives over their operands (first '
+                'denier / first allower / negation, exceptions of operands propagate), and _check passes target, '
+                'credentials and enforcer unchanged. BOUNDED (not proved): that the shift-reduce parser builds the '
+                'tree the documented precedence prescribes -- every symbol sequence up to length 6 (quick) / 8 '
+                '(thorough) against an independent recursive-descent reading, under all truth assignments, with '
+                'lexical variants and list-of-lists shapes.',
+    assumptions=COMMON_ASSUME + ['check trees are well formed (wf_eval) and leaf checks are deterministic functions of '
+                                 'their arguments (EV)', 'parser-language equivalence is decided only up to the stated bound'],
+)
+
+PROPS['C02'] = Prop(
+    functions=[],
+    bounded=[('bounded.lang', 'c02')],
+    level='other',
+    technique='bounded stand-in (contracts for the parser are not closed yet): exhaustive small-scope enumeration of malformed rules',
+    explanation='BOUNDED: every symbol sequence up to length 6/8 that the grammar rejects, hand-picked and random junk '
+                'strings and every JSON/YAML scalar/container shape as a rule value must be rejected or deny for a '
+                'spread of credentials. No clause of C02 is proved in this revision.',
+    assumptions=['bounded only'],
+)
+
+PROPS['C15'] = Prop(
+    functions=PRINTERS,
+    bounded=[('bounded.lang', 'c15')],
+    level='other',
+    technique='contract-based deductive verification of the printers (own VC generator + z3); the round trip through the parser is a labelled bounded stand-in',
+    explanation='PROVED for all well-formed trees: the printers produce @, !, kind:match, "not " + operand, and the '
+                'parenthesised " and "/" or " join of the printed operands. BOUNDED: that parsing the printed text '
+                'rebuilds the same printed form and decisions (random expressions, rule-set dump/load, RuleDefault '
+                'equality).',
+    assumptions=COMMON_ASSUME + ['str(o) of an object dispatches to the proved __str__ of its dynamic class ($str summary)'],
+)
+
 for _pid in PROPS:
     NOT_APPLICABLE.pop(_pid, None)
